@@ -25,13 +25,6 @@ def nrOf (j : Json) : NRange × Bool := match j with
 
 def txtBytes (t : Txt) : Bytes := (String.ofList t).toUTF8.toList
 
-def nonAscii (c : Char) : Bool := c.val.toNat ≥ 0x80
-
-/-- Some rune before rune-column `p.col` on `p`'s line satisfies `f`. -/
-def runeBefore (lns : List Txt) (f : Char → Bool) (p : Pos) : Bool :=
-  match lns[p.line - 1]? with
-  | some ln => p.line ≥ 1 && (ln.take (p.col - 1)).any f
-  | none => false
 
 def isDateChar (c : Char) : Bool := ('0' ≤ c && c ≤ '9') || c == '-' || c == '/' || c == '.'
 def isDateText (s : Txt) : Bool :=
@@ -85,11 +78,6 @@ def quotedDirective (e : Env) (h : Option Hit) : Bool :=
      | none => false)
   | none => false
 
-def isTagRange (e : Env) (r : Rng) : Bool :=
-  let all := e.jr.transactions.flatMap fun tx =>
-    tx.comments.flatMap (·.tags) ++ tx.postings.flatMap (·.tags)
-  all.any (fun t => t.range == r)
-
 /-- Judge one range against the spec.  `h` says what the range is a range of (kind, the lexeme
     named by the tree, the position range the code started from).  `none` = passes;
     `some (id, why)` = fails, `id` the known finding whose guard names this shape ("" if none). -/
@@ -97,11 +85,9 @@ def judgeCore (e : Env) (feature : String) (r : NRange) (h : Option Hit) : Optio
   let rng := (h.map (·.rng)).getD Rng.zero
   let kind := (h.map (·.kind)).getD Kind.other
   let name := (h.map (·.name)).getD []
-  let tagLike := kind == .tag || kind == .tagValue || isTagRange e rng
   if !rangeOK e.doc r then
     let known :=
-      if tagLike && runeBefore e.raw nonAscii rng.stop then "tag-byte-offsets"
-      else if kind == .payee && !payeeCanonical e h.get! then "payee-estimate"
+      if kind == .payee && !payeeCanonical e h.get! then "payee-estimate"
       else if quotedDirective e h then "quoted-commodity-directive"
       else if e.crlf && (afterCR e r.sl r.sc || afterCR e r.el r.ec) then "crlf-line-end"
       else ""
@@ -131,10 +117,10 @@ def judgeCore (e : Env) (feature : String) (r : NRange) (h : Option Hit) : Optio
     return bad (if !payeeCanonical e h.get! then "payee-estimate" else "") "a payee"
   | .tag =>
     if sb == name then return none
-    return bad (if runeBefore e.raw nonAscii rng.stop then "tag-byte-offsets" else "") "a tag name"
+    return bad "" "a tag name"
   | .tagValue =>
     if sb == name then return none
-    return bad (if runeBefore e.raw nonAscii rng.stop then "tag-byte-offsets" else "") "a tag value"
+    return bad "" "a tag value"
   | .date =>
     if isDateText s then return none
     return bad "" "a date"
